@@ -1,16 +1,16 @@
-SPECIFICATION FairSpec
+SPECIFICATION Spec
 CONSTANTS
   W = 4
   Anns = {"both", "size", "hash", "none"}
-  Devs = {"all"}
-  Sizes = {0, 1, 2, 5}
+  Devs = {"all", "short", "fail"}
+  Sizes = {0, 1, 2, 3, 5}
   MaxFaults = 1
-  MaxInject = 1
+  MaxInject = 0
   FaultKinds = {"Lose", "Drop", "Dup", "Flip", "WrongSid", "WrongFrom", "Swap", "EarlyClose"}
-  InjectKinds = {"from", "res", "sid"}
-  InjectElems = {"open", "data", "close"}
+  InjectKinds = {"from"}
+  InjectElems = {"data"}
   Bursts = {}
   MaxHist = 999
-INVARIANTS TypeOK
-PROPERTIES Termination
+INVARIANTS TypeOK Safe CleanSuccess
+VIEW View
 CHECK_DEADLOCK FALSE
